@@ -905,7 +905,9 @@ fn refusal_rules(a: &Action, pre: &Obs, _names: &Names) -> Vec<&'static str> {
         }
         Act::ChangeAsk { .. } => vec!["C12.good_input_refused"],
         Act::Finalize { .. } => vec!["C08.finalize_bounds"],
-        Act::DeleteListing { .. } | Act::RemoveBucket { .. } | Act::Withdraw { .. } => vec!["C07.drain_refused"],
+        Act::DeleteListing { .. } => vec!["C07.drain_refused"],
+        // the entitlement a purchase created can be claimed (exactly once): a refused claim is claimable zero times
+        Act::RemoveBucket { .. } | Act::Withdraw { .. } => vec!["C07.drain_refused", "C03.claim_refused"],
         Act::Buy { lid, bid } => {
             let mut v = vec!["C02.unexpected_refusal"];
             if let (Some(l), Some(b)) = (pre.listing_by_id(*lid), pre.bucket_at(&a.sender, *bid)) {
